@@ -1267,6 +1267,8 @@ class SSHConnection(SSHPacketHandler, asyncio.Protocol):
 
         assert self._trusted_host_keys is not None
 
+        self._trusted_host_keys = set()
+
         for key in trusted_host_keys:
             self._trusted_host_keys.add(key)
 
